@@ -217,15 +217,15 @@ func (e *Engine) verifyFunc(key string, against *FuncContract, prefix string) (r
 				ac.K = nret
 			}
 			if ac.K < 1 || ac.K > nret {
-				x.fail("anchor [%s] of %s: there is no return %d (the function has %d)", ac.Clause.Label, key, ac.K, nret)
+				x.bindFail(labelOr(ac.Clause.Label, 0), fmt.Sprintf("there is no return %d (the function has %d): %s", ac.K, nret, strings.Join(strings.Fields(ac.Clause.Text), " ")), fn.Pos())
 			}
 		case "store":
 			if x.storeTarget(fn, ac) == nil {
-				x.fail("anchor [%s] of %s: there is no assignment #%d to %s", ac.Clause.Label, key, ac.K, ac.Callee)
+				x.bindFail(labelOr(ac.Clause.Label, 0), fmt.Sprintf("there is no assignment #%d to %s: %s", ac.K, ac.Callee, strings.Join(strings.Fields(ac.Clause.Text), " ")), fn.Pos())
 			}
 		case "call":
 			if x.anchorTarget(fn, ac) == nil {
-				x.fail("anchor [%s] of %s: there is no call #%d of %q", ac.Clause.Label, key, ac.K, ac.Callee)
+				x.bindFail(labelOr(ac.Clause.Label, 0), fmt.Sprintf("there is no call #%d of %q: %s", ac.K, ac.Callee, strings.Join(strings.Fields(ac.Clause.Text), " ")), fn.Pos())
 			}
 		}
 	}
